@@ -188,6 +188,16 @@ def r2_errors_contained(repo=None):
                     if any(x in ("OSError", "EnvironmentError", "Exception", "*") for x in names) and not any(
                             isinstance(x, ast.Raise) for x in ast.walk(h)):
                         ok = True
+            # `with contextlib.suppress(OSError): ...` is try/except OSError: pass
+            wt = fvw.enclosing(c, (ast.With,))
+            while wt is not None and not ok:
+                for it in wt.items:
+                    ce = it.context_expr
+                    if isinstance(ce, ast.Call) and pyfront.call_name(ce) in ("contextlib.suppress", "suppress") and any(
+                            pyfront.dotted(a) in ("OSError", "EnvironmentError", "Exception") for a in ce.args) \
+                            and any(c in list(ast.walk(s_)) for s_ in wt.body):
+                        ok = True
+                wt = fvw.enclosing(wt, (ast.With,))
             site = "%s:%s %s `%s`" % (m.rel, c.lineno, q, norm(ast.unparse(c))[:60])
             if ok:
                 r.ok(site, "inside try/except OSError that does not re-raise (an event for a vanished source file is harmless)")
@@ -253,7 +263,7 @@ def config_table(repo=None):
     for method, idrf, idmd, link in itertools.product(("move", "copy", "link"), (True, False), (True, False), (True, False)):
         it = dtable.Interp({"src": "S", "dest": "D", "method": method, "ignore_existing": False, "link": link, "verbose": False,
                             "starttime": None, "endtime": None, "include_drf": idrf, "include_dmd": idmd, "force_polling": False},
-                           consts=consts, methods=methods)
+                           consts=consts, methods=methods, module=m)
         it.record = {"DigitalRFMirrorHandler", "ringbuffer.DigitalRFRingbufferHandler"}
         it.run(body, stop_at=lambda s: (isinstance(s, ast.Expr) and isinstance(s.value, ast.Call) and pyfront.call_name(s.value) in observer_helpers)
                or any(isinstance(c, ast.Call) and (pyfront.call_name(c) or "").endswith("DirWatcher") for c in ast.walk(s)))
@@ -334,13 +344,24 @@ def r4_replay_existing(repo=None):
     r = Rule("C17.R4", "files that already exist are replayed through the same handlers")
     m = pyfront.mod("mirror", repo)
     q = MI + ".start"
-    fvw = m.flat(q)
+    fvw = m.flat(q).dealiased()
     f = fvw.fn()
     scope = [f] + [h for h, c, b in pyutil.local_helpers(m, m.fn(q), depth=1) if h.name not in fvw.inlined]
     # a loop over self.event_handlers that dispatches a FileCreatedEvent with match_time=False
     disp = []
+    def _iter_text(fn, lp):
+        """the iterable of lp; a local assigned exactly once in fn from `self.event_handlers` (a helper's parameter after inlining),
+        with the attribute itself not stored in fn, stands for it"""
+        it_ = lp.iter
+        if isinstance(it_, ast.Name):
+            defs = [a for a in ast.walk(fn) if isinstance(a, ast.Assign) and any(isinstance(t, ast.Name) and t.id == it_.id for t in a.targets)]
+            stores = [a for a in ast.walk(fn) if isinstance(a, ast.Attribute) and isinstance(a.ctx, (ast.Store, ast.Del))
+                      and pyfront.dotted(a) == "self.event_handlers"]
+            if len(defs) == 1 and not stores:
+                return norm(ast.unparse(defs[0].value))
+        return norm(ast.unparse(it_))
     for fn in scope:
-        for lp in [n for n in ast.walk(fn) if isinstance(n, ast.For) and norm(ast.unparse(n.iter)) == "self.event_handlers"]:
+        for lp in [n for n in ast.walk(fn) if isinstance(n, ast.For) and _iter_text(fn, n) == "self.event_handlers"]:
             for c in ast.walk(lp):
                 if isinstance(c, ast.Call) and isinstance(c.func, ast.Attribute) and c.func.attr == "dispatch" \
                         and isinstance(c.func.value, ast.Name) and isinstance(lp.target, ast.Name) and c.func.value.id == lp.target.id:
@@ -399,14 +420,22 @@ def r4_replay_existing(repo=None):
         if comp is None:
             raise AnalysisError("%s.%s: neither a scheduling loop over self.event_handlers nor one composite handler built from that "
                                 "list was recognised" % (MI, io.name))
-        disp = [x for x in comp.body if isinstance(x, ast.FunctionDef) and x.name == "dispatch"]
+        disp = [m.flat(comp.name + ".dispatch").fn() for x in comp.body if isinstance(x, ast.FunctionDef) and x.name == "dispatch"]
         init = [x for x in comp.body if isinstance(x, ast.FunctionDef) and x.name == "__init__"]
         ordered = False
         if len(disp) == 1 and len(init) == 1 and len(init[0].args.args) == 2:
             hp = init[0].args.args[1].arg
             attrs = [a.targets[0].attr for a in ast.walk(init[0]) if isinstance(a, ast.Assign) and isinstance(a.targets[0], ast.Attribute)
                      and isinstance(a.value, ast.Name) and a.value.id == hp]
-            loops = [lp for lp in disp[0].body if isinstance(lp, ast.For) and isinstance(lp.iter, ast.Attribute) and lp.iter.attr in attrs
+            def _it(lp):
+                """the loop's iterable, a local assigned once from self.<attr> looked through"""
+                it_ = lp.iter
+                if isinstance(it_, ast.Name):
+                    defs = [a for a in ast.walk(disp[0]) if isinstance(a, ast.Assign) and any(isinstance(t, ast.Name) and t.id == it_.id for t in a.targets)]
+                    if len(defs) == 1:
+                        it_ = defs[0].value
+                return it_
+            loops = [lp for lp in disp[0].body if isinstance(lp, ast.For) and isinstance(_it(lp), ast.Attribute) and _it(lp).attr in attrs
                      and isinstance(lp.target, ast.Name)]
             if len(loops) == 1 and not any(isinstance(y, (ast.Break, ast.Continue, ast.Return)) for y in ast.walk(loops[0])):
                 calls_ = [c for c in ast.walk(loops[0]) if isinstance(c, ast.Call) and isinstance(c.func, ast.Attribute) and c.func.attr == "dispatch"
